@@ -20,8 +20,8 @@ RULE = ("C01/C02 results (0-2 splices, free / fix_alpha) x {unpacking with unit 
         "combinations, percentiles, convergence with 2e3 (quick) / 2e4 samples}; layouts incl. only location 0 uncovered; distinct = "
         "(sub-check, single/double, nta, fix, flags); non-trivial = at least one non-reference location and noise > 0")
 ASSUMPTIONS = ["convergence and bracketing are statistical: fixed seeds, 6-sigma chi-square band, at least 99 % of the cells",
-               "convergence is judged for nta <= 1 (tmpf/tmpb) and nta = 0 (tmpw): with more splices the reported variances lack "
-               "cross terms (known findings of C05)",
+               "convergence of tmpw is judged at cells where the second-order term 2*max(tmpf_var,tmpb_var)^2/T^2 is below a quarter of "
+               "the band times tmpw_var (the property's 'for small noise')",
                "zero-variance run: tmpw realisations are 0/0 weighted means (NaN) and are recorded, not judged"]
 
 
@@ -223,18 +223,23 @@ def statistics_case(ctx, c, out, size, seed):
             ctx.fail(f"confidence bounds of {name} are not non-decreasing along CI", desc)
         t = out[name].values
         inside = (q[0] <= t + 1e-9) & (t <= q[-1] + 1e-9)
-        if inside.mean() < 0.99 and (name != "tmpw" or nta == 0):
+        if inside.mean() < 0.99:
             ctx.fail(f"the 2.5/97.5 percentiles of {name} bracket the calibrated temperature at only {100 * inside.mean():.1f} % of the cells", desc)
-        judged = (nta <= 1) if name != "tmpw" else (nta == 0)
-        if judged:
+        if True:
             ratio = np.asarray(mc[name + "_mc_var"].values) / out[name + "_var"].values
             okc = np.abs(ratio - 1.0) <= band
+            if name == "tmpw":
+                # "for small noise": in tmpw the first-order effect of alpha cancels between the two directions, the second-order
+                # one (T*(d/D)^2, variance 2*var^2/T^2) does not; cells where it is not negligible against the band are not judged
+                tk = t + 273.15
+                second = 2.0 * np.maximum(out["tmpf_var"].values, out["tmpb_var"].values) ** 2 / tk**2
+                small = second <= 0.25 * band * out["tmpw_var"].values
+                ctx.count("tmpw cells outside the small-noise regime (not judged)", int((~small).sum()))
+                okc = okc | ~small
             if okc.mean() < 0.99:
                 i, j = np.unravel_index(int(np.argmax(np.abs(ratio - 1.0))), ratio.shape)
                 ctx.fail(f"{name}_mc_var / {name}_var outside the {band:.3f} band at {100 * (1 - okc.mean()):.1f} % of the cells "
                          f"(worst [{i},{j}]: {ratio[i, j]:.4f})", desc)
-        else:
-            ctx.count(f"convergence of {name} not judged (nta={nta})")
     ctx.case(sig=["convergence", c.double, nta, size, seed], nontrivial=c.noise > 0, sample=desc)
     ctx.count("convergence")
 
